@@ -279,11 +279,13 @@ CONFIG = {
         "queries are association lists key -> value (n numeric); url.Values.Set = replace; the order of different keys is not modelled (compared key-sorted)",
         "the registry model's meaning of `last`: items after the entry named last; an unknown name is placed before the first greater item (= all greater items on a sorted registry, C15_last_on_sorted_registry); item names are non-empty and distinct",
         "a legal registry: page length in [1, min(cap, n)] chosen freely per request, Link iff items remain, link cursor = last item of the unfiltered page, link does not change artifactType, it filters whenever it announces filtering (header or annotation, comma separated list)",
-        "http transport, auth client, context cancellation and the Referrers capability state machine are outside the model (the harness fixes the capability: supported for the API path, unsupported for the tag-schema path); the tag-schema path is modelled at the level (tag found?, index size, listed referrers): limitSize + filterReferrers (C15_tag_schema), manifest fetch / digest verification are C13/C05 matters",
+        "http transport, auth client and context cancellation are outside the model; Repository.Referrers' capability detection (unknown/supported/unsupported, fallback to the tag schema, state set once) is modelled (referrers_wrap, C15_referrers_capability) on top of the API loop and the tag-schema path; the tag-schema path is modelled at the level (tag found?, index size, listed referrers): limitSize + filterReferrers (C15_tag_schema), manifest fetch / digest verification are C13/C05 matters; pingReferrers (used by push/delete) is not part of the listings",
+        "Link: only the first header line and its first <...> are read (model = code); link-values/lines AFTER the next link are covered by the theorems (trailer) and generated; a link-value of another relation BEFORE the next link is the known finding link-rel-ignored (C15_link_rel_first_refuted), generated in a separate stream whose failures carry only that signature",
+        "Content-Type of a referrers response is compared verbatim with ocispec.MediaTypeImageIndex (hand-copied constant of the pinned image-spec dependency): parameters or another spelling count as 'no referrers API' (C15_content_type_exact) -- modelled as the code behaves, generated as a disturbance",
         "content/oci listTags is modelled on the resolver map as a list of (reference, digest of its descriptor) in any order; Go string order = byte-wise lexicographic order",
     ],
-    "level_text": "Coq theorems for all item lists, split oracles, caps, page sizes, values of last, Link renderings and filter announcements: Tags/Repositories/Referrers deliver exactly the registry's suffix after last (resp. the referrers of the requested artifact type), once, in order, within |suffix|+1 requests; a failing callback truncates the listing at that invocation with its error; pages come only from documents that fit MaxMetadataBytes (<= 0 = regenerated default), at most that many bytes pass the reader; the referrers tag-schema fallback rejects an index over the limit and otherwise delivers the filtered referrers in one non-empty page; content/oci listTags is the sorted set of non-digest references greater than last for every map order. Model tied to registry/remote and content/oci by a differential run against an in-process fake registry (PRNG split oracle, five Link forms, malformed stream) and an independent oracle",
-    "level_note": "net/url resolution and encoding/json are hypotheses of the theorems (checked by the harness on every followed link / around the limit); transport, auth, capability detection and manifest fetching of the tag-schema fallback are not modelled",
+    "level_text": "Coq theorems for all item lists, split oracles, caps, page sizes, values of last, Link renderings and filter announcements: Tags/Repositories/Referrers deliver exactly the registry's suffix after last (resp. the referrers of the requested artifact type), once, in order, within |suffix|+1 requests; a failing callback truncates the listing at that invocation with its error; pages come only from documents that fit MaxMetadataBytes (<= 0 = regenerated default), at most that many bytes pass the reader; Repository.Referrers takes its callback arguments from exactly one of the API and the tag schema, returns a callback error unchanged and sets the capability once (after fix a06e319); the referrers tag-schema fallback rejects an index over the limit and otherwise delivers the filtered referrers in one non-empty page; content/oci listTags is the sorted set of non-digest references greater than last for every map order. Model tied to registry/remote and content/oci by a differential run against an in-process fake registry (PRNG split oracle, five Link forms, malformed stream) and an independent oracle",
+    "level_note": "net/url resolution and encoding/json are hypotheses of the theorems (checked by the harness on every followed link / around the limit); transport, auth and manifest fetching of the tag-schema fallback are not modelled; Link relation types are ignored by the code (known finding link-rel-ignored)",
     "technique": "machine-checked proof in Coq (induction over the page loop against a nondeterministic registry; prefix/refinement for callback failure; sorting) + translator-regenerated constants + model/implementation correspondence against harness/fakereg",
     "explanation": "theorems over all lists/splits/links about the model of the page loops, parseLink, limitReader, filterReferrers and listTags; constants regenerated from registry/remote; model and real client run on the same fake-registry scripts (requests, callback arguments, outcome compared), the fake registry's pages compared with the registry model; independent exactly-once / stop-on-error / over-read / truncation / sortedness oracle",
 }
